@@ -617,6 +617,9 @@ impl World {
     }
 
     pub fn run_suffix(&mut self, suffix: Suffix) {
+        if self.stream.is_some() {
+            self.stream_line('S', serde_json::to_string(&suffix).unwrap_or_default());
+        }
         // events of the suffix are numbered after the recorded ones
         match suffix {
             Suffix::None => {}
@@ -675,9 +678,6 @@ impl World {
     /// Observables of every arena other than `acting` (C20 isolation frame).
     fn frame(&self, acting: Option<Aid>) -> Vec<(Aid, u8, u64, usize, i64, u64, usize)> {
         let mut v = vec![];
-        if self.live_arenas().len() < 2 {
-            return v;
-        }
         for b in self.live_arenas() {
             if Some(b) == acting {
                 continue;
@@ -697,6 +697,16 @@ impl World {
             Event::Handle { h, .. } => self.handles.get(h).map(|x| x.arena),
             Event::ArmTraceFault { .. } | Event::ArmDropFault { .. } => None,
         };
+        if self.stream.is_some() {
+            // the event with its op lists emptied: ops follow one by one as they are executed
+            let mut shell = ev.clone();
+            match &mut shell {
+                Event::Mutate { ops, .. } | Event::NewArena { ops, .. } | Event::Collect { then: MarkedAction::Finalize(ops), .. } => ops.clear(),
+                _ => {}
+            }
+            let j = serde_json::to_string(&shell).unwrap_or_default();
+            self.stream_line('E', j);
+        }
         let before = self.frame(acting);
         self.exec_event_inner(ev, g);
         if !self.ok() && !before.is_empty() {
